@@ -404,6 +404,8 @@ func runC15(c *eng.Ctx) {
 
 	c.Rule("GUARD", "pkg/encoding.FixedOffsetDecoder.GetBlock{empty range accepted}", func() { emptyBlockAccepted(c) })
 
+	c.Rule("GUARD", "kv{a table builder is abandoned only when it holds no key}", func() { abandonOnlyWhenNoKeys(c) })
+
 	// ---- 7. merged iterator ------------------------------------------------------------------------------------------------------------------
 	c.Rule("PASS", "kv/table.mergedIterator.HasNext{heap re-established}", func() {
 		f := c.Fn("kv/table.mergedIterator.HasNext")
